@@ -140,7 +140,7 @@ def run(m: Model, r: Report, tier: str) -> None:
 
     # ---------------------------------------------------------------- R3
     rh = m.require_function(f"{BASE}.BaseCommand.run_hook")
-    g = CFG(rh.node)
+    g = CFG(m.raw_function(rh))   # the raw tree: logging statements use names too
     unbound = sorted({(n.lineno, name) for n, name in g.possibly_unbound_uses(rh.params())})
     r.check(not unbound, "R3", f"{rh.qualname}#definite-assignment",
             f"names possibly unbound when used: {unbound} (a failing hook raises UnboundLocalError out of entry_point)", loc=rh.loc)
@@ -154,7 +154,7 @@ def run(m: Model, r: Report, tier: str) -> None:
     bad_specs = []
     n_fstrings = 0
     for mod in m.modules.values():
-        for n in ast.walk(mod.tree):
+        for n in ast.walk(mod.raw_tree):
             if isinstance(n, ast.FormattedValue) and n.format_spec is not None:
                 n_fstrings += 1
                 spec = n.format_spec
